@@ -155,3 +155,5 @@ def run(ctx):
     r1(ctx)
     c10.r4(ctx, rule='C04.R2', only_status=True)
     deps(ctx)
+    # R5 GEOMETRY (= C16.R1/R2, C15.R1/R2): the tables and lookups the move count and the check test are computed from
+    tables_dep(ctx, 'C04.R5', ['board::Board::status', 'movegen::movegen::MoveGen::new_legal', 'board::Board::update_pin_info'])
